@@ -50,8 +50,9 @@ type Op struct {
 	H         uint64     `json:"h,omitempty"`
 	Dissent   uint64     `json:"dissent_height,omitempty"` // one oracle (DissentBy) reports the same event with this height instead of H
 	DissentBy int        `json:"dissent_by,omitempty"`
-	Sub       []Op       `json:"race,omitempty"`      // Kind "Race": two consecutive external events with a divergent and a slow oracle
-	Part      int        `json:"race_part,omitempty"` // 1, 2: this operation is the first / second event of a Race
+	Sub       []Op       `json:"race,omitempty"`           // Kind "Race": two consecutive external events with a divergent and a slow oracle
+	Evm       bool       `json:"via_precompile,omitempty"` // Cancel / ExecResult: through the cancelSendToExternal / executeClaim precompile
+	Part      int        `json:"race_part,omitempty"`      // 1, 2: this operation is the first / second event of a Race
 	Success   bool       `json:"success,omitempty"`
 	Refund    int        `json:"refund,omitempty"`
 	Coins     [][2]int64 `json:"coins,omitempty"`
@@ -118,7 +119,9 @@ type World struct {
 	keys                                        []acctKey
 	nextEv                                      uint64
 	coinErc20                                   common.Address
-	stuck                                       bool // the event stream can no longer advance (an observed claim panicked)
+	erc20Of                                     map[int]common.Address // ERC-20 contract of tokens 3 and 4
+	stuckBefore                                 bool                   // value of stuck before the current operation
+	stuck                                       bool                   // the event stream can no longer advance (an observed claim panicked)
 	params0                                     [4]uint64
 	h0                                          int64
 	bal0                                        []*big.Int
@@ -139,6 +142,7 @@ var extAddrs = []string{
 const moduleAcct = -1
 const erc20Acct = -2
 const coinContract = "0x8888888888888888888888888888888888888888"
+const ercContract = "0x9999999999999999999999999999999999999999"
 
 func NewWorld(seed int64, prm [4]uint64, moduleFloat int64) *World {
 	c := lib.NewChain(seed, 1, nil)
@@ -154,12 +158,13 @@ func NewWorld(seed int64, prm [4]uint64, moduleFloat int64) *World {
 	lib.Must(k.SetParams(ctx, &p))
 	w.params0 = prm
 
-	// token 0: FX; tokens 1,2: plain bridge tokens as in keeper_v1_test.go AddRandomBaseToken(false); token 3: registered coin; token 4: not registered
+	// token 0: FX; tokens 1,2: plain bridge tokens as in keeper_v1_test.go AddRandomBaseToken(false); token 3: registered coin; token 4: externally owned ERC-20 registered through RegisterNativeERC20; token 5: not registered
 	w.toks = []tokenInfo{
 		{Kind: "native", Base: fxtypes.DefaultDenom, Bridge: fxtypes.DefaultDenom, Contract: contracts[0]},
 		{Kind: "ext", Base: "usda", Bridge: crosschaintypes.NewBridgeDenom(chainName, contracts[1]), Contract: contracts[1]},
 		{Kind: "ext", Base: "usdb", Bridge: crosschaintypes.NewBridgeDenom(chainName, contracts[2]), Contract: contracts[2]},
 		{Kind: "coin", Base: "usdc", Bridge: crosschaintypes.NewBridgeDenom(chainName, coinContract), Contract: coinContract},
+		{Kind: "erc", Base: "usdd", Bridge: crosschaintypes.NewBridgeDenom(chainName, ercContract), Contract: ercContract},
 		{Kind: "none", Base: "zzz", Bridge: crosschaintypes.NewBridgeDenom(chainName, "0x7777777777777777777777777777777777777777"), Contract: "0x7777777777777777777777777777777777777777"},
 	}
 	// token 3: a coin registered in x/erc20 (module-owned ERC-20, bridge denom as alias), the set-up the repository's
@@ -171,6 +176,16 @@ func NewWorld(seed int64, prm [4]uint64, moduleFloat int64) *World {
 	lib.Must(rerr)
 	pair, _ := c.App.Erc20Keeper.GetTokenPair(ctx, "usdc")
 	w.coinErc20 = pair.GetERC20Contract()
+	// token 4: an ERC-20 deployed and owned by a user, registered the production way (MsgRegisterERC20 -> RegisterNativeERC20)
+	// with the bridge denom as alias
+	tokOwner := lib.EthKey(seed, "c05tokowner", 0)
+	c.Mint(tokOwner.Acc(), lib.FX(10))
+	ercAddr, derr := c.DeployFIP20(tokOwner, "USD Digital", "USDD")
+	lib.Must(derr)
+	lib.Must(k.AddBridgeTokenExecuted(ctx, &crosschaintypes.MsgBridgeTokenClaim{TokenContract: ercContract, Name: "USD Digital", Symbol: "USDD", Decimals: 18, ChainName: chainName}))
+	_, nerr := c.App.Erc20Keeper.RegisterNativeERC20(ctx, ercAddr, w.toks[4].Bridge)
+	lib.Must(nerr)
+	w.erc20Of = map[int]common.Address{3: w.coinErc20, 4: ercAddr}
 	lib.Must(k.AddBridgeTokenExecuted(ctx, &crosschaintypes.MsgBridgeTokenClaim{TokenContract: contracts[0], Name: "Function X", Symbol: fxtypes.DefaultDenom, Decimals: 18, ChainName: chainName}))
 	erc20Mod := common.BytesToAddress(authtypes.NewModuleAddress(erc20types.ModuleName).Bytes())
 	for i := 1; i <= 2; i++ {
@@ -200,12 +215,17 @@ func NewWorld(seed int64, prm [4]uint64, moduleFloat int64) *World {
 		// the crossChain precompile pulls ERC-20 tokens with transferFrom: standing approval
 		approve, aerr := contract.GetFIP20().ABI.Pack("approve", lib.CrosschainPrecompile, new(big.Int).Lsh(big.NewInt(1), 200))
 		lib.Must(aerr)
-		if r := c.EvmCall(ctx, u.Hex(), &w.coinErc20, nil, 500_000, approve); r.Err != nil || r.Failed {
-			panic(fmt.Sprintf("approve failed: %v %s", r.Err, r.VmError))
+		c.Mint(u.Acc(), sdk.NewCoin(w.toks[4].Bridge, sdkmath.NewInt(300)))
+		lib.Must(c.ERC20OwnerMint(ctx, ercAddr, tokOwner, u.Hex(), big.NewInt(1000)))
+		for _, tk := range []common.Address{w.coinErc20, ercAddr} {
+			tk := tk
+			if r := c.EvmCall(ctx, u.Hex(), &tk, nil, 500_000, approve); r.Err != nil || r.Failed {
+				panic(fmt.Sprintf("approve failed: %v %s", r.Err, r.VmError))
+			}
 		}
 	}
 	if moduleFloat > 0 {
-		for t := 1; t <= 3; t++ {
+		for t := 1; t <= 4; t++ {
 			lib.Must(c.App.BankKeeper.MintCoins(ctx, chainName, sdk.NewCoins(sdk.NewCoin(w.toks[t].Bridge, sdkmath.NewInt(moduleFloat)))))
 		}
 	}
@@ -218,7 +238,7 @@ func NewWorld(seed int64, prm [4]uint64, moduleFloat int64) *World {
 		for t := 1; t <= 2; t++ {
 			w.keys = append(w.keys, acctKey{a, t, 0}, acctKey{a, t, 1})
 		}
-		w.keys = append(w.keys, acctKey{a, 3, 0}, acctKey{a, 3, 1}, acctKey{a, 3, 2})
+		w.keys = append(w.keys, acctKey{a, 3, 0}, acctKey{a, 3, 1}, acctKey{a, 3, 2}, acctKey{a, 4, 0}, acctKey{a, 4, 1}, acctKey{a, 4, 2})
 	}
 	w.h0 = c.Ctx.BlockHeight()
 	w.bal0 = w.balances()
@@ -246,7 +266,7 @@ func (w *World) balances() []*big.Int {
 	var out []*big.Int
 	for _, k := range w.keys {
 		if k.Which == 2 { // ERC-20 balance of the registered coin
-			b, err := w.c.App.EvmKeeper.ERC20BalanceOf(w.c.Ctx, w.coinErc20, common.BytesToAddress(w.acc(k.Acct)))
+			b, err := w.c.App.EvmKeeper.ERC20BalanceOf(w.c.Ctx, w.erc20Of[k.Token], common.BytesToAddress(w.acc(k.Acct)))
 			lib.Must(err)
 			out = append(out, b)
 			continue
@@ -394,7 +414,7 @@ func (w *World) apply(op Op) (accepted bool) {
 		if op.Token == 0 {
 			value = big.NewInt(op.Amount + op.Fee)
 		} else {
-			args.Token = w.coinErc20
+			args.Token = w.erc20Of[op.Token]
 		}
 		return w.tryMsg(func(ctx sdk.Context) error {
 			if err := args.Validate(); err != nil {
@@ -414,7 +434,25 @@ func (w *World) apply(op Op) (accepted bool) {
 			}
 			return nil
 		})
+	case "IncreaseFeeP":
+		// the REAL increaseBridgeFee precompile: the added fee as FX msg.value or as ERC-20 tokens
+		value, token := big.NewInt(0), common.Address{}
+		if op.Token == 0 {
+			value = big.NewInt(op.Add)
+		} else if a, has := w.erc20Of[op.Token]; has {
+			token = a
+		} else {
+			token = common.HexToAddress("0x00000000000000000000000000000000000000ff") // a token without ERC-20 contract
+		}
+		return w.evmCall(op.Who, value, func() ([]byte, error) {
+			return crosschainprecompile.NewIncreaseBridgeFeeMethod(nil).PackInput(chainName, new(big.Int).SetUint64(op.ID), token, big.NewInt(op.Add))
+		})
 	case "Cancel":
+		if op.Evm { // the REAL cancelSendToExternal precompile
+			return w.evmCall(op.Who, big.NewInt(0), func() ([]byte, error) {
+				return crosschainprecompile.NewCancelSendToExternalMethod(nil).PackInput(chainName, new(big.Int).SetUint64(op.ID))
+			})
+		}
 		m := &crosschaintypes.MsgCancelSendToExternal{ChainName: chainName, TransactionId: op.ID, Sender: w.users[op.Who].Acc().String()}
 		return w.tryMsg(func(ctx sdk.Context) error {
 			if err := m.ValidateBasic(); err != nil {
@@ -450,6 +488,11 @@ func (w *World) apply(op Op) (accepted bool) {
 	case "BatchExecuted", "Observe", "ObserveResult":
 		return w.observeClaim(op, w.mkClaim(op))
 	case "ExecResult":
+		if op.Evm { // the REAL executeClaim precompile, called by some user
+			return w.evmCall(0, big.NewInt(0), func() ([]byte, error) {
+				return crosschainprecompile.NewExecuteClaimMethod(nil).PackInput(crosschaintypes.ExecuteClaimArgs{Chain: chainName, EventNonce: new(big.Int).SetUint64(op.E)})
+			})
+		}
 		return w.tryMsg(func(ctx sdk.Context) error { return w.x.Keeper.ExecuteClaim(ctx, op.E) })
 	case "BridgeCall":
 		var coins sdk.Coins
@@ -470,7 +513,7 @@ func (w *World) apply(op Op) (accepted bool) {
 		args := crosschaintypes.BridgeCallArgs{DstChain: chainName, Refund: w.users[op.Refund].Hex(), To: common.HexToAddress(w.exts[op.To]),
 			Data: op.Data, Value: big.NewInt(0), Memo: op.Memo}
 		for _, cn := range op.Coins {
-			args.Tokens = append(args.Tokens, w.coinErc20)
+			args.Tokens = append(args.Tokens, w.erc20Of[int(cn[0])])
 			args.Amounts = append(args.Amounts, big.NewInt(cn[1]))
 		}
 		return w.tryMsg(func(ctx sdk.Context) error {
@@ -490,8 +533,7 @@ func (w *World) apply(op Op) (accepted bool) {
 		})
 	case "ExportImport":
 		// genesis round trip of the module: ExportGenesis, an empty module store (what a fresh application has),
-		// InitGenesis; the bridge tokens are then registered again the way NewWorld registered them (a fresh application
-		// set up for these tokens); every other module keeps its state, as in a full export/import
+		// InitGenesis; every other module keeps its state, as in a full export/import
 		return w.tryMsg(func(ctx sdk.Context) error {
 			gs := crosschainkeeper.ExportGenesis(ctx, w.x.Keeper)
 			store := ctx.KVStore(w.c.App.GetKey(chainName))
@@ -505,18 +547,10 @@ func (w *World) apply(op Op) (accepted bool) {
 				store.Delete(k)
 			}
 			crosschainkeeper.InitGenesis(ctx, w.x.Keeper, gs)
-			for _, kv := range w.c.DumpPrefix(ctx, chainName, crosschaintypes.BridgeDenomKey) {
-				store.Delete(kv.K)
-			}
-			for i, t := range w.toks[:4] {
-				sym := t.Bridge
-				if i == 0 {
-					sym = fxtypes.DefaultDenom
-				} else if i == 3 {
-					sym = "USDC"
-				}
-				if err := w.x.Keeper.AddBridgeTokenExecuted(ctx, &crosschaintypes.MsgBridgeTokenClaim{TokenContract: t.Contract, Name: "x", Symbol: sym, Decimals: 18, ChainName: chainName}); err != nil {
-					return err
+			// the imported genesis restores the bridge token registry itself: every registered token must be usable again
+			for _, t := range w.toks[:5] {
+				if c, found := w.x.Keeper.GetContractByBridgeDenom(ctx, t.Bridge); !found || c != t.Contract {
+					return fmt.Errorf("bridge token %s lost by the genesis round trip", t.Bridge)
 				}
 			}
 			return nil
@@ -539,8 +573,28 @@ func (w *World) apply(op Op) (accepted bool) {
 	panic("unknown op " + op.Kind)
 }
 
+// evmCall: a call of user [who] to the crosschain precompile contract on the real EVM, as one transaction
+func (w *World) evmCall(who int, value *big.Int, pack func() ([]byte, error)) bool {
+	return w.tryMsg(func(ctx sdk.Context) error {
+		data, err := pack()
+		if err != nil {
+			return err
+		}
+		pre := lib.CrosschainPrecompile
+		r := w.c.EvmCall(ctx, w.users[who].Hex(), &pre, value, 5_000_000, data)
+		if r.Err != nil {
+			return r.Err
+		}
+		if r.Failed {
+			return fmt.Errorf("evm: %s", r.VmError)
+		}
+		return nil
+	})
+}
+
 // step = fresh event manager, apply, snapshot
 func (w *World) step(op Op) (bool, Snap) {
+	w.stuckBefore = w.stuck
 	w.c.Ctx = w.c.Ctx.WithEventManager(sdk.NewEventManager())
 	ok := w.apply(op)
 	s := w.snapshot()
